@@ -241,6 +241,20 @@ def native_end_to_end(tier):
             if code not in exp:
                 failures.append(dict(key="exit-code-e2e", what="CID with 'DistinctCount k >= 1', files %r -> exit code %r, "
                                      "expected one of %r" % (combo, code, exp), args=dict(files=list(combo))))
+        # a file holding only its header row after a full file: judged on its own (no distinct values at all)
+        hcid = os.path.join(d, "header_cid.csv")
+        open(hcid, "w").write("d,format,delimited\nd,header,1\nf,branch,,,1\nc,branches,DistinctCount,branch >= 2\n")
+        full = os.path.join(d, "full.csv")
+        open(full, "w").write("branch\na\nb\n")
+        honly = os.path.join(d, "header_only.csv")
+        open(honly, "w").write("branch\n")
+        for combo, exp in (((full,), 0), ((honly,), 1), ((full, honly), 1), ((honly, full), 1)):
+            n += 1
+            with contextlib.redirect_stderr(io.StringIO()):
+                code = applications.main(["cutplace", "--log", "critical", hcid] + list(combo))
+            if code != exp:
+                failures.append(dict(key="exit-code-e2e", what="header CID with DistinctCount >= 2, files %r -> exit code %r, expected %r" % (
+                    [os.path.basename(x) for x in combo], code, exp), args=dict(files=[os.path.basename(x) for x in combo])))
         # --until: same effect as the API's limit
         lim = os.path.join(d, "limit.csv")
         open(lim, "w").write("a\nb\ntoolong\nc\n")
